@@ -12,12 +12,12 @@ use crate::engine::{gen_sub, guard, Obs, PropertyDef, Sub, Tier, Verdict};
 use crate::model::idx16;
 
 pub const MIN_NAMES: &[&str] = &[
-    "a", "b", "ab", "a1", "$", "_x", "é", "aé", "λ", "变x", "𝒳", "x𝒳", "a\u{200c}b", "fn", "f", "abc",
+    "a", "b", "ab", "a1", "$", "_x", "é", "aé", "λ", "变x", "𝒳", "x𝒳", "a\u{200c}b", "fn", "f", "abc", "e\u{301}t", "n\u{663}", "x\u{203f}y", "x",
 ];
 pub const ORIG_NAMES: &[&str] = &["origA", "origB", "original_fn", "Ω", "", "render"];
 pub const STRINGS: &[&str] = &["\"😀\"", "'𝒳 é'", "\"function a\"", "`é😀`", "\"\""];
 pub const PADS: &[&str] = &[" ", "  ", "\t", "\u{a0}", "\u{2003} ", ""];
-const NON_IDENTIFIERS: &[&str] = &["", " a", "a.b", "1a", "a b", "a-", "\"a\"", "\u{200c}a", "a "];
+const NON_IDENTIFIERS: &[&str] = &["", " a", "a.b", "1a", "a b", "a-", "\"a\"", "\u{200c}a", "a ", "\u{301}a", "\u{663}n", "\u{203f}x"];
 
 #[derive(Clone, Debug, Hash, Serialize, Deserialize)]
 pub enum Piece {
@@ -191,7 +191,9 @@ fn ref_is_start(c: char) -> bool {
 }
 
 fn ref_is_continue(c: char) -> bool {
-    ref_is_start(c) || c.is_ascii_digit() || c == '\u{200c}' || c == '\u{200d}'
+    // (also characters that may continue but not start an identifier: a combining mark, a
+    // non-ASCII digit, connector punctuation - ID_Continue \ ID_Start)
+    ref_is_start(c) || c.is_ascii_digit() || c == '\u{200c}' || c == '\u{200d}' || matches!(c, '\u{301}' | '\u{663}' | '\u{203f}')
 }
 
 fn ref_is_identifier(s: &str) -> bool {
